@@ -378,7 +378,7 @@ pub fn random_history(rng: &mut Rng) -> Vec<Op> {
             0 => Op::Put(rng.pick_str(&PUT_ARGS).to_string()),
             1 => Op::PutDigitAt(b'0' + if rng.chance(1, 12) { 0 } else { 1 + rng.below(9) as u8 }, rng.usize(7)),
             2 => Op::Shift(*rng.pick(&SHIFT_ARGS)),
-            3 => Op::Fput(rng.pick_str(&["70", "71", "90", "91", "99", "80", "5", "123"]).to_string()),
+            3 => Op::Fput(rng.pick_str(&["70", "71", "90", "91", "99", "80", "5", "123", "0", "00", "05", "000", "1", "10", "100", "1000"]).to_string()),
             4 => Op::Push(rng.pick_str(&["0", "1", "5", "9", "00", "12"]).to_string()),
             5 => Op::Freeze,
             _ => Op::Reset,
